@@ -306,11 +306,17 @@ pub fn case(t: &mut Tape) -> CaseOut {
 pub fn run(ctx: &Ctx) -> i32 {
     let mut rep = Report::new();
     run_cases(ctx, &mut rep, "histories", ctx.cases(200_000, 5_000_000), case);
+    // the real daemon: what its master port announces after the parent changed its contents / after a take-over
+    let workers = (ctx.threads as u64 / 2).clamp(2, 8);
+    let sum = crate::daemon::run_part(ctx, &mut rep, ctx.cases(6 * workers, 100 * workers), workers);
+    if let Some(why) = &sum.skipped {
+        println!("note: end-to-end daemon part skipped ({}); the other parts are unaffected", why);
+    }
     finish(
         Finish {
             ctx,
             level: "exploration",
-            rule: "boundary clock with 2-3 ports; a synthetic parent on port 1 and a rival master on port 2 emit clean Announce streams (increasing ids; in 1/12 of the parent's Announces a restart: the id jumps back by 1..32768 and the contents change ; a BMCA run after that and before the old record has aged out is the regime of the known finding) whose contents change over time (all six time-properties flags, UTC offset incl. extremes, time source, quality, priorities, grandmaster identity, stepsRemoved 0..254), parent silence long enough for the records to expire (take-over as grandmaster), receipt time-outs, SetClockQuality at random points, BMCA and announce timers in generated order. Oracle for every emitted Announce: (A) equals the data set getters read immediately before the call, (B) while a port is slave equals the parent's last Announce with stepsRemoved+1, (C) as grandmaster (after a completed BMCA) own attributes and the clock quality in force at that BMCA. Non-trivial = an Announce emitted while slave and a content change or take-over; distinct by op list.",
+            rule: "boundary clock with 2-3 ports; a synthetic parent on port 1 and a rival master on port 2 emit clean Announce streams (increasing ids; in 1/12 of the parent's Announces a restart: the id jumps back by 1..32768 and the contents change ; a BMCA run after that and before the old record has aged out is the regime of the known finding) whose contents change over time (all six time-properties flags, UTC offset incl. extremes, time source, quality, priorities, grandmaster identity, stepsRemoved 0..254), parent silence long enough for the records to expire (take-over as grandmaster), receipt time-outs, SetClockQuality at random points, BMCA and announce timers in generated order. Oracle for every emitted Announce: (A) equals the data set getters read immediately before the call, (B) while a port is slave equals the parent's last Announce with stepsRemoved+1, (C) as grandmaster (after a completed BMCA) own attributes and the clock quality in force at that BMCA. Part daemon: the real statime daemon (two-port boundary clock, private network namespace): the parent changes what it announces; every Announce of the daemon's master port from 40 ms after the changed Announce left the harness must carry exactly those contents with stepsRemoved + 1; in a third of the cases the parent then falls silent and, once both ports report master, the Announces must name the daemon itself with stepsRemoved 0 and its own priorities. Non-trivial = an Announce emitted while slave and a content change or take-over; distinct by op list.",
             assumptions: vec!["both leap flags set by the parent: the data set keeps Leap59; UTC offset is only compared when currentUtcOffsetValid".into()],
             min_nontrivial: 100,
         },
@@ -319,5 +325,9 @@ pub fn run(ctx: &Ctx) -> i32 {
 }
 
 pub fn replay(ctx: &Ctx, path: &str) -> i32 {
+    let part = std::fs::read_to_string(path).ok().and_then(|s| serde_json::from_str::<serde_json::Value>(&s).ok()).and_then(|v| v["part"].as_str().map(|x| x.to_string()));
+    if part.as_deref() == Some("daemon") {
+        return crate::daemon::replay_part(ctx, path, 3);
+    }
     replay_file(ctx, path, case)
 }
